@@ -561,9 +561,23 @@ Proof.
 Qed.
 
 (* verdict spelled out *)
+Lemma has_epoch_sched_In : forall e s m, has_epoch_sched e s m = true <-> In (e, s) m.
+Proof.
+  intros e s m. unfold has_epoch_sched. rewrite existsb_exists. split.
+  - intros ([k v] & Hin & H). cbn [fst snd] in H. apply andb_true_iff in H. destruct H as [H1 H2].
+    apply Z.eqb_eq in H1, H2. subst. exact Hin.
+  - intros Hin. exists (e, s). split; [exact Hin|]. cbn [fst snd]. rewrite !Z.eqb_refl. reflexivity.
+Qed.
+
+Lemma has_epoch_sched_has_epoch : forall e s m, has_epoch_sched e s m = true -> has_epoch e m = true.
+Proof.
+  intros e s m H. unfold has_epoch_sched, has_epoch in *. rewrite existsb_exists in *.
+  destruct H as (kv & Hin & H). exists kv. split; [exact Hin|]. apply andb_true_iff in H. tauto.
+Qed.
+
 Lemma verified_spec : forall c b, verified c b = true <->
   (bkd b = KPre /\ bnum b < first_block c /\ bgood b = true) \/
-  (bkd b = KFinal /\ lookup_epoch (bepoch b) (epochs c) = Some (bsched b) /\ bgood b = true).
+  (bkd b = KFinal /\ In (bepoch b, bsched b) (epochs c) /\ bgood b = true).
 Proof.
   intros c b. unfold verified, verify. destruct (bkd b).
   - destruct (first_block c <=? bnum b) eqn:E.
@@ -571,14 +585,25 @@ Proof.
     + apply Z.leb_gt in E. destruct (bgood b).
       * split; [|reflexivity]. intros _. left. repeat split. exact E.
       * split; [discriminate|]. intros [(_ & _ & H)|(H & _)]; discriminate.
-  - destruct (lookup_epoch (bepoch b) (epochs c)) as [s|].
-    + destruct (bgood b) eqn:G; cbn [andb].
-      * destruct (s =? bsched b) eqn:E.
-        -- apply Z.eqb_eq in E. subst. split; [|reflexivity]. intros _. right. repeat split.
-        -- apply Z.eqb_neq in E. split; [discriminate|].
-           intros [(H & _)|(_ & H & _)]; [discriminate|]. inversion H. contradiction.
+  - destruct (has_epoch_sched (bepoch b) (bsched b) (epochs c)) eqn:P.
+    + rewrite (has_epoch_sched_has_epoch _ _ _ P). apply has_epoch_sched_In in P.
+      destruct (bgood b); cbn [andb].
+      * split; [|reflexivity]. intros _. right. repeat split. exact P.
       * split; [discriminate|]. intros [(H & _)|(_ & _ & H)]; discriminate.
-    + split; [discriminate|]. intros [(H & _)|(_ & H & _)]; discriminate.
+    + assert (Hn : ~ In (bepoch b, bsched b) (epochs c)).
+      { intros Hin. apply has_epoch_sched_In in Hin. congruence. }
+      rewrite andb_false_r. destruct (has_epoch (bepoch b) (epochs c));
+        (split; [discriminate|]); intros [(H & _)|(_ & H & _)]; try discriminate; contradiction.
+Qed.
+
+(* a bigger epoch relation verifies at least as much *)
+Lemma verified_mono : forall c c' b, first_block c' = first_block c ->
+  (forall kv, In kv (epochs c) -> In kv (epochs c')) ->
+  verified c b = true -> verified c' b = true.
+Proof.
+  intros c c' b Hf Hsub H. apply verified_spec in H. apply verified_spec. rewrite Hf.
+  destruct H as [H|(H1 & H2 & H3)]; [left; exact H|]. right. repeat split; try assumption.
+  apply Hsub. exact H2.
 Qed.
 
 (* ---------- step-level facts for non-restart steps ---------- *)
